@@ -50,6 +50,60 @@ Theorem C15_reserved_id :
 Proof. exact reserved_id. Qed.
 Print Assumptions C15_reserved_id.
 
+(* a rule edit takes effect at once: after an operation that leaves stream t without feed f (a rule for
+   t that does not name f, a delete of t's rule, a delete-all) the very next broadcast on f is not
+   offered to any subscriber of t; after a rule that names f it is offered to every registered one *)
+Theorem C15_muted_feed_stops :
+  forall ops o t f c, wf (ops ++ [o]) -> mutes o t f -> snd c = TStream t ->
+    exists out, run true init ((ops ++ [o]) ++ [Bcast f]) = (fst (run true init (ops ++ [o])) ++ [out], false) /\
+      ~ In c out.
+Proof. exact muted_feed_stops. Qed.
+Print Assumptions C15_muted_feed_stops.
+
+Theorem C15_new_feed_starts :
+  forall ops t fs f c,
+    wf (ops ++ [AddRule t fs]) -> t <> reserved -> In f fs -> snd c = TStream t -> reg_of ops c = true ->
+    exists out, run true init ((ops ++ [AddRule t fs]) ++ [Bcast f]) =
+                  (fst (run true init (ops ++ [AddRule t fs])) ++ [out], false) /\ In c out.
+Proof. exact new_feed_starts. Qed.
+Print Assumptions C15_new_feed_starts.
+
+Example C15_rule_edit_witness :
+  let a := (1, TStream 1)%N in
+  let h := [Register a; AddRule 1 [7; 8]]%N in
+  mutes (AddRule 1 [8]%N) 1%N 7%N /\ mutes (Delete 1%N) 1%N 8%N /\ mutes DeleteAll 1%N 8%N /\ reg_of h a = true /\
+  fst (run true init (h ++ [Bcast 7; AddRule 1 [8]; Bcast 7; Bcast 8; Delete 1; Bcast 8]%N)) =
+    [[]; []; [a]; []; []; [a]; []; []].
+Proof.
+  vm_compute. repeat split; try discriminate; try reflexivity.
+  - intros [H|H]; [discriminate|exact H].
+  - left; reflexivity.
+Qed.
+
+(* plain subscribers, for EVERY history (no assumption on how clients register): a plain subscriber of
+   feed g is offered a broadcast on f exactly when it is registered and g = f - rules play no part *)
+Theorem C15_plain_delivery :
+  forall ops c g f, snd c = TFeed g ->
+    exists s, final true ops = Some s /\
+      (In c (recipients f (inner s)) <-> reg_of ops c = true /\ g = f).
+Proof. exact plain_delivery. Qed.
+Print Assumptions C15_plain_delivery.
+
+(* topics and rule keys arrive by name: a topic is a stream exactly when its name begins with "stream/";
+   only the exact string "deleteAll" is read as the reserved rule key *)
+Theorem C15_names :
+  (forall name n, (topic_of_name name n = TStream n <-> prefix "stream/" name = true) /\
+                  (topic_of_name name n = TFeed n <-> prefix "stream/" name = false)) /\
+  (forall name n, n <> reserved -> (stream_of_name name n = reserved <-> name = "deleteAll"%string)).
+Proof. exact (conj topic_of_name_spec stream_reserved_is_exact_word). Qed.
+Print Assumptions C15_names.
+
+Example C15_names_witness :
+  topic_of_name "streamcam/video" 3 = TFeed 3 /\ topic_of_name "stream" 4 = TFeed 4 /\
+  topic_of_name "Stream/x" 5 = TFeed 5 /\ topic_of_name "stream//a" 1 = TStream 1 /\ topic_of_name "stream/" 2 = TStream 2 /\
+  stream_of_name "deleteall" 3 = 3%N /\ stream_of_name "deleteAll/" 3 = 3%N /\ stream_of_name "deleteAll" 3 = reserved.
+Proof. vm_compute. repeat split. Qed.
+
 (* defect F9, for the record: the same three histories on the model of the code before the repair
    (stopped entries left in SubClients) end in "close of closed channel"; after it they do not *)
 Example C15_F9_before_and_after_repair :
